@@ -1,6 +1,5 @@
 """C13 - bulk-data writers and their readers are mutual inverses."""
 import io
-import math
 import os
 
 import numpy as np
@@ -13,9 +12,10 @@ from vlib import util
 from vlib.core import Part
 
 PROPERTY = "C13"
-RULE = ("hypothesis, constructive: id lists of 1..40 (thorough ..120) positive ints < 1e8 assembled from "
-        "runs (2..12 long), singletons and gaps (1 = touching) so that every length mod 8 / mod 4 and every "
-        "THRU pattern occurs, sorted / segment-shuffled / reversed / fully shuffled, list or ndarray; one part "
+RULE = ("hypothesis, constructive: id lists of 1..40 (SET: 1..60) positive ints < 1e8, length uniform, "
+        "assembled from runs (2..12 long), singletons and gaps (1 = touching) so that every length mod 8 / "
+        "mod 4 and every THRU pattern occurs, sorted / segment-shuffled / reversed / fully shuffled, list or "
+        "ndarray; one part "
         "per writer-reader family: dmig (1..3 matrices per file; 1..6 nodes = grids with dof subsets + scalar "
         "points with dof 0, sorted or shuffled labels; exactly symmetric / clearly unsymmetric / square with "
         "other column labels / rectangular / form 9; float32/64, complex64/128; patterns dense/sparse/diag/"
@@ -37,6 +37,15 @@ ASSUME = ["Python str.format / float() are correctly rounded (used to decide wha
           "pandas MultiIndex/DataFrame construction is correct",
           "refs/coordsys.py resolves CORD2x chains correctly (validated against pyyeti by C14)"]
 KNOWN = {}
+
+REQUIRED_CLASSES = {"thorough": (
+    [f"{p}:n%8={k}" for p in ("spoints", "csuper", "sets") for k in range(8)]
+    + [f"extrn:2n%8={k}" for k in (0, 2, 4, 6)]
+    + [f"tabled1:n%4={k}" for k in range(4)] + ["tabled1:n%2=0", "tabled1:n%2=1"]
+    + [f"dmig:form{k}" for k in (1, 2, 6, 9)] + [f"dmig:type{k}" for k in (1, 2, 3, 4)]
+    + ["dmig:has_spoint", "dmig:by_name", "dmig:variant=expanded", "dmig:variant=square",
+       "sets:wrapped", "sets:thru", "spoints:thru", "coords:depth=4", "uset:depth=0", "uset:depth=3",
+       "grids:ps", "grids:seid", "grids:n=1"])}
 
 NASSET_B = 2097154          # 'b' set membership word (docstring of make_uset / addgrid)
 
@@ -754,10 +763,6 @@ def idlists(draw, maxn=40, orders=("sorted", "sorted", "segshuffle", "reverse", 
     elif order == "shuffle" and len(ids) > 1:
         ids = draw(st.permutations(ids))
     return list(ids)
-
-
-def _maxn(tier_big):
-    return 120 if tier_big else 40
 
 
 # ---- DMIG
